@@ -282,7 +282,8 @@ func prioGenJSON(r *Rng, k configKind) prioJSONVal {
 		v := Pick(r, []uint64{0, 5, 42, math.MaxUint64, 1 << 40})
 		return prioJSONVal{strconv.FormatUint(v, 10), strconv.FormatUint(v, 10)}
 	case ckString:
-		s := Pick(r, []string{"", "a", "a=b", "héllo", "-b", "x y", "json\"quoted\"", "tab\t", "日本"})
+		s := Pick(r, []string{"", "a", "a=b", "héllo", "-b", "x y", "json\"quoted\"", "tab\t", "日本",
+			"$HOME", "pa$$w0rd-${x}", "bob$smith", "${PATH}", "100%", "%s %d", "line\n", "crlf\r\n", " lead", "trail ", "{\"a\":1}", "back\\slash", "~/x", "#c", "\u0000nul", "<&>"})
 		b, _ := json.Marshal(s)
 		return prioJSONVal{string(b), s}
 	case ckFloat64:
